@@ -268,6 +268,14 @@ func drawTargetedKind5H(t *rapid.T, cfg *gen.StoreCfg, present []*mocrelay.Event
 		tag = append(tag, "wss://r.example")
 	}
 	e.Tags = append(e.Tags, tag)
+	if rapid.IntRange(0, 3).Draw(t, "k5dup") == 0 {
+		// the same target named twice, in the other form
+		dup := mocrelay.Tag{tag[0], tag[1]}
+		if len(tag) == 2 {
+			dup = append(dup, "wss://other.example")
+		}
+		e.Tags = append(e.Tags, dup)
+	}
 	gen.Seal(e)
 	w.Events = append(w.Events, e)
 	return e
